@@ -7,6 +7,8 @@ use serde_json::Value;
 pub mod c01;
 pub mod c02;
 pub mod c03;
+pub mod c04;
+pub mod c05;
 pub mod c06;
 pub mod c07;
 pub mod c12;
@@ -28,6 +30,8 @@ pub fn lookup(id: &str) -> Option<Entry> {
         "C01" => Entry { id: "C01", run: c01::run, replay: c01::replay },
         "C02" => Entry { id: "C02", run: c02::run, replay: c02::replay },
         "C03" => Entry { id: "C03", run: c03::run, replay: c03::replay },
+        "C04" => Entry { id: "C04", run: c04::run, replay: c04::replay },
+        "C05" => Entry { id: "C05", run: c05::run, replay: c05::replay },
         "C06" => Entry { id: "C06", run: c06::run, replay: c06::replay },
         "C07" => Entry { id: "C07", run: c07::run, replay: c07::replay },
         "C12" => Entry { id: "C12", run: c12::run, replay: c12::replay },
